@@ -48,7 +48,7 @@ claimed.update({
 claimed.update({
  "C06": dict(level="exploration", ref="§5 C06",
    text="Access units packetised by an independent RFC 6184/7798/3640 packetiser (tape-chosen aggregation, fragment sizes, sequence numbers across the 16-bit wrap) sent through a faulty datagram link (loss, burst loss, duplication, adjacent swap, displacement up to 3; fault-free runs separate) into the real rtp.Demuxer; oracle: equality with a reference depacketiser run over the arrival sequence (bytes, order, nothing invented, incomplete fragmented units yield nothing), one PTS per RTP timestamp, PTS differences proportional to timestamp differences.",
-   note="Trusted: the reference packetiser/depacketiser in harness/oracle (written from the RFCs), SDP fixtures with parameter sets. RTP timestamps start just below 2^32 in a quarter of the runs (the wrap falls inside the stream), sender reports precede the media in half of them. Not generated: NAL units shorter than 3 bytes, filler NALs, a first sender report arriving mid-stream (it re-bases the clock). One run in 30 sends a unit in well over a thousand fragments; a track may get its first sender report mid-stream between access units (presentation times judged per stretch)."),
+   note="Trusted: the reference packetiser/depacketiser in harness/oracle (written from the RFCs), SDP fixtures with parameter sets. RTP timestamps start just below 2^32 in a quarter of the runs (the wrap falls inside the stream), sender reports precede the media in half of them. Header-only NAL units (end of sequence / end of bitstream: 2 bytes in H.265, 1 byte in H.264) close one access unit in four, alone in a packet or last in an aggregation packet. Not generated: filler NALs, a first sender report arriving mid-stream (it re-bases the clock). One run in 30 sends a unit in well over a thousand fragments; a track may get its first sender report mid-stream between access units (presentation times judged per stretch)."),
 })
 claimed.update({
  "C08": dict(level="exploration", ref="§5 C08",
